@@ -383,6 +383,31 @@ func c06Position(c *Ctx) {
 			if k, isK := constInt(r.Results[0]); isK && k == 0 {
 				def = true
 			}
+			// delegated to a finder of the package that answers (0, error) when there is no such header, the error
+			// being ignored here: the position is 0 then
+			for _, leaf := range phiLeaves(r.Results[0]) {
+				cc, idx := callOfResult(leaf)
+				if cc == nil || idx != 0 {
+					continue
+				}
+				callee := cc.Call.StaticCallee()
+				if callee == nil || !w.isMain(callee) || callee.Signature.Results().Len() != 2 || errIndexOfFn(callee) != 1 {
+					continue
+				}
+				zeroOnMiss, misses := true, 0
+				for _, r2 := range returnsUnder(callee, nil) {
+					if isNilConst(r2.Results[1]) {
+						continue
+					}
+					misses++
+					if k, isK := constInt(r2.Results[0]); !isK || k != 0 {
+						zeroOnMiss = false
+					}
+				}
+				if zeroOnMiss && misses > 0 {
+					def = true
+				}
+			}
 		}
 		c.check(def, rule, "findViaInsertPos/default-0", w.pos(f.Pos()), "top of the header list when no Via exists", "findViaInsertPos has no default position 0")
 	}
